@@ -677,6 +677,9 @@ func (th *Thread) load(fr *Frame, pv *PtrV) Value {
 		case e.Field >= 0:
 			sv, ok := v.(*StructV)
 			if !ok {
+				if po, isP := v.(*Poison); isP {
+					panic(engineErr("load from poisoned object (%s) at %s", po.Why, th.posStr(fr)))
+				}
 				panic(engineErr("load: field path on %T at %s", v, th.posStr(fr)))
 			}
 			v = sv.F[e.Field]
